@@ -307,7 +307,7 @@ func (g *gen) innerSelect(b *qb, depth int, ctes []string) {
 		b.p(".")
 		b.id("host")
 		b.comma()
-		b.id("y")
+		b.id("x")
 		b.p(".")
 		b.id("usage")
 		b.comma()
